@@ -11,6 +11,9 @@ TRUST = ("Trusted base: go/types, go/ssa and the VTA/CHA call graphs of golang.o
 
 # id -> (technique, claim text, design_ref)
 CLAIMED = {
+ "C09": ("SSA taint analysis (E-TAINT, inter-procedural inside package tds, field- and container-based) with an enumerated sink whitelist; E-CONST case-set comparison; dominance rules on the OAEP call and key generation",
+         "Decides the universally quantified absence of flow: every use of the account password and of every remote-server password in package tds is enumerated and must end in rsaEncrypt's OAEP message (nonce first, SHA-1, crypto/rand), in the plain-mode password slot (dominated by config.Encrypt being none of the four encrypted ids) or in the first remote-server entry; anything else (error texts, logs, buffers, other fields) is reported with its flow path. Also decides the OAEP parameters, the 32 random bytes of the session key, agreement of pack and Login on the encrypted ids, and per-iteration freshness of the parameter objects. Cryptographic strength is not decided.",
+         "DESIGN.md §3 C09"),
  "C15": ("SSA def-use rule for io.Reader/io.Writer buffers; sibling table of the typed readers/writers; dominance rules on Bytes/AllPacketsConsumed; who-may-use rule for the live packet size",
          "Decides the clauses of the FIFO property whose truth is in the shape of the code: Read fills and Write consumes the caller's buffer, the 21 typed readers/writers are width-consistent siblings over one never-reassigned byte order, Bytes succeeds only with n bytes, Reset clears all state, AllPacketsConsumed always depends on the packet index reaching the end of the queue, and the live packet size only sizes new packets. The step-by-step equality with a byte-slice model over operation histories is not decided.",
          "DESIGN.md §3 C15"),
